@@ -603,6 +603,10 @@ def run(ctx):
             if cls == "hang" and c[0] == "resolve" and c[1] == 0 and any(t and t[0][0] == 8 for p in c[2] for ve in p[1:] for (t, _, _) in ve[2]):
                 ctx.known_hits["F-C04-6"] = ctx.known_hits.get("F-C04-6", 0) + 1
                 continue
+            if cls == "hang" and c[0] == "resolveschema" and c[1] == 0 and b"KnownAs" in c[2]:
+                # the same finding reached through the schema text (aliased requirements are written KnownAs x|)
+                ctx.known_hits["F-C04-6"] = ctx.known_hits.get("F-C04-6", 0) + 1
+                continue
             if (key, cls) not in seen or len(ctx.violations) < 30:
                 ctx.violation("%s %s" % (key, what), sx(c)[:4000], observed=cls, required="a value or an error")
             seen.add((key, cls))
